@@ -195,7 +195,18 @@ class DefRecorder:
         self.ev('ctx.meta', ch=ch, cshape=[cs.objects, cs.properties], dshape=[dsh.objects, dsh.properties],
                 cfill=[cf.numerator, cf.denominator], dfill=[df.numerator, df.denominator],
                 str_eq=ctx.tostring() == d.tostring() and str(d) == d.tostring(),
-                crc_eq=ctx.crc32() == d.crc32())
+                crc_eq=all(self._crc(ctx, enc) == self._crc(d, enc)
+                           for enc in (None, 'utf-16', 'utf-8', None, 'utf-32', 'utf-16')))
+
+    @staticmethod
+    def _crc(x, enc):
+        """crc32 of a context / definition under an encoding (the two classes spell the argument differently)."""
+        try:
+            if enc is None:
+                return x.crc32()
+            return x.crc32(encoding=enc)
+        except Exception as exc:
+            return type(exc).__name__
 
 
 # ------------------------------------------------------------------ universes
